@@ -2374,7 +2374,8 @@ pub fn run_case(case: &Case, opts: &RunOpts) -> Outcome {
         root_released: false,
     };
     let cfg = rt::Config {
-        max_steps: opts.max_steps,
+        // (a long backlog needs its share of steps: ~40 per operation for scheduling, running and releasing it)
+        max_steps: opts.max_steps + 40 * n_ops as u64,
         unlock_points: case.cfg.unlock_points,
         spurious_at: {
             let mut v: Vec<u64> = case.cfg.spurious.iter().map(|x| *x as u64).collect();
